@@ -10,15 +10,6 @@ functions; `pureOp` computes the same text from the Lean model.  Hashes are FNV-
 -/
 namespace EpdVerif
 
-def H0 : UInt64 := 0xcbf29ce484222325
-@[inline] def mix (h v : UInt64) : UInt64 := (h ^^^ v) * 0x100000001b3
-def hex16 (h : UInt64) : String :=
-  let s := String.ofList (Nat.toDigits 16 h.toNat)
-  String.ofList (List.replicate (16 - s.length) '0') ++ s
-def hexN (n width : Nat) : String :=
-  let s := String.ofList (Nat.toDigits 16 n)
-  String.ofList (List.replicate (width - s.length) '0') ++ s
-
 def rectStr : Option Rect → String
   | some r => s!"{r.x}.{r.y}.{r.w}.{r.h}"
   | none => "panic"
